@@ -33,13 +33,16 @@ pub mod time {
     use vstd::prelude::*;
     use vstd::std_specs::ops::SubSpecImpl;
     use vstd::std_specs::cmp::{PartialEqSpecImpl, PartialOrdSpecImpl};
-    pub const BOUND: i128 = 1_000_000_000_000_000_000_000_000_000;   // 10^27 ns ≈ 3·10^10 years: every representable instant
+    pub const BOUND: i128 = 1_000_000_000_000_000_000_000_000_000;   // 10^27 ns: bound on durations
+    /// the `time` crate's representable instants (default features): -9999-01-01T00:00:00 ..= 9999-12-31T23:59:59.999999999 UTC, in ns since the epoch
+    pub const MIN_NS: i128 = -377_705_116_800_000_000_000;
+    pub const MAX_NS: i128 = 253_402_300_799_999_999_999;
     #[derive(Clone, Copy)]
     pub struct OffsetDateTime { pub ns: i128 }
     #[derive(Clone, Copy)]
     pub struct Duration { pub ns: i128 }
     impl OffsetDateTime {
-        pub open spec fn wf(&self) -> bool { -BOUND <= self.ns <= BOUND }
+        pub open spec fn wf(&self) -> bool { MIN_NS <= self.ns <= MAX_NS }
     }
     impl core::ops::Sub for OffsetDateTime {
         type Output = Duration;
@@ -56,7 +59,8 @@ pub mod time {
     }
     impl vstd::std_specs::ops::AddSpecImpl<Duration> for OffsetDateTime {
         open spec fn obeys_add_spec() -> bool { true }
-        open spec fn add_req(self, rhs: Duration) -> bool { self.wf() && -2 * BOUND <= rhs.ns <= 2 * BOUND }
+        /// `OffsetDateTime + Duration` PANICS when the result is not representable
+        open spec fn add_req(self, rhs: Duration) -> bool { self.wf() && MIN_NS <= self.ns + rhs.ns <= MAX_NS }
         open spec fn add_spec(self, rhs: Duration) -> OffsetDateTime { OffsetDateTime { ns: (self.ns + rhs.ns) as i128 } }
     }
     impl core::ops::Sub<Duration> for OffsetDateTime {
@@ -65,7 +69,8 @@ pub mod time {
     }
     impl SubSpecImpl<Duration> for OffsetDateTime {
         open spec fn obeys_sub_spec() -> bool { true }
-        open spec fn sub_req(self, rhs: Duration) -> bool { self.wf() && -2 * BOUND <= rhs.ns <= 2 * BOUND }
+        /// `OffsetDateTime - Duration` PANICS when the result is not representable
+        open spec fn sub_req(self, rhs: Duration) -> bool { self.wf() && MIN_NS <= self.ns - rhs.ns <= MAX_NS }
         open spec fn sub_spec(self, rhs: Duration) -> OffsetDateTime { OffsetDateTime { ns: (self.ns - rhs.ns) as i128 } }
     }
     impl PartialEq for OffsetDateTime {
